@@ -129,30 +129,10 @@ func RunNodeIO(self string, sc IOScenario, base string) Ev {
 	var relOnce sync.Once
 	launches, exits := 0, 0
 	exited := sync.NewCond(&mu)
-	if !sc.TailLate {
-		// benign order, forced: the loop may relaunch the step only after the goroutine of the previous attempt is
-		// completely gone (its deferred teardown included) - the other order is the open finding F-12b, pinned separately
-		scheduler.VerifHook = func(point, step string) {
-			switch point {
-			case "loop.launch":
-				mu.Lock()
-				dl := time.Now().Add(3 * time.Second)
-				for exits < launches && time.Now().Before(dl) {
-					mu.Unlock()
-					time.Sleep(100 * time.Microsecond)
-					mu.Lock()
-				}
-				launches++
-				mu.Unlock()
-			case "worker.exit":
-				mu.Lock()
-				exits++
-				exited.Broadcast()
-				mu.Unlock()
-			}
-		}
-		defer func() { scheduler.VerifHook = nil }()
-	}
+	_, _ = launches, exits
+	_ = exited
+	// (until the F-12b fix the benign order had to be forced here; now both orders are driven: the natural one
+	// and, with tailLate, the one where the old goroutine's deferred part runs after the next attempt was set up)
 	if sc.TailLate {
 		scheduler.VerifHook = func(point, step string) {
 			switch point {
